@@ -25,7 +25,7 @@ META = {
 }
 
 QUICK = ["MC_quick_agglab.cfg", "MC_quick_aggval.cfg", "MC_quick_vvlab.cfg", "MC_quick_vvval.cfg", "MC_quick_vs.cfg"]
-BIG = ["MC_big_agg.cfg", "MC_big_vv.cfg"]
+BIG = ["MC_big_agg.cfg", "MC_big_vv.cfg", "MC_big_orders.cfg"]
 
 
 def run(ctx):
@@ -37,8 +37,14 @@ def run(ctx):
         cfgs = dbg.split(",")
 
     def one(cfg):
-        return cfg, ctx.tlc("promql_agg", "AggBinop", cfg, workers=3, timeout=1500)
+        return cfg, ctx.tlc("promql_agg", "AggBinop", cfg, workers=(2 if q else 3), timeout=1500)
 
+    reuse = os.environ.get("VERIF_C29_CASES")    # debugging aid: replay a saved cases file (TLC output does not depend on /repo)
+    if reuse and os.path.exists(reuse):
+        import json
+        behs = [json.loads(l) for l in open(reuse)]
+        ctx.states = ctx.transitions = len(behs)
+        cfgs, dbg = [], "reuse"
     with concurrent.futures.ThreadPoolExecutor(max_workers=5) as ex:
         for cfg, mc in ex.map(one, cfgs):
             ctx.account(mc)
@@ -46,13 +52,13 @@ def run(ctx):
             ctx.log("%s: %d generated / %d distinct, %d cases (%.0fs)" % (cfg, mc.generated, mc.distinct, len(mc.emitted), mc.wall))
     if not q and not dbg:
         for cfg in BIG:
-            mc = ctx.tlc("promql_agg", "AggBinop", cfg, timeout=3000)
+            mc = ctx.tlc("promql_agg", "AggBinop", cfg, workers=6, timeout=3000)
             ctx.account(mc)
             behs += mc.emitted
             ctx.log("%s: %d generated / %d distinct, %d cases (%.0fs)" % (cfg, mc.generated, mc.distinct, len(mc.emitted), mc.wall))
     # seeded random cases over the large alphabet (built sample by sample, expression in two steps)
     if not dbg:
-        sim = ctx.tlc("promql_agg", "AggBinop", "SIM.cfg", simulate=(75 if q else 1200), depth=40, workers=8,
+        sim = ctx.tlc("promql_agg", "AggBinop", "SIM.cfg", simulate=(150 if q else 2500), depth=40, workers=4,
                       timeout=(100 if q else 1200))
         ctx.account(sim)
         behs += sim.emitted
@@ -62,6 +68,9 @@ def run(ctx):
         raise vlib.Infra("no cases emitted")
     ctx.samples = [behs[0], behs[len(behs) // 2], behs[-1]]
     inp = ctx.write_ndjson("cases.ndjson", behs)
+    if reuse and not os.path.exists(reuse):
+        import shutil
+        shutil.copy(inp, reuse)
     gr = ctx.go_test("promql", ["c29_aggbinop_test.go"], "^TestVerifC29$", env={"VERIF_IN": inp}, timeout="40m")
     ctx.absorb(gr, label="C29 replay")
     ctx.assumptions += [
